@@ -973,7 +973,7 @@ class Contract:
         self.raises_only = raises_only      # tuple of exception classes or None (= not checked)
         # call sites: parameters (or 'param.attr.attr' paths) that are mutable symbolic lists / iterators whose
         # contents the function changes: havocked between `requires`/`old` and `ensures`
-        self.modifies = tuple(modifies or ())
+        self.modifies = modifies if isinstance(modifies, dict) else tuple(modifies or ())
         # {local name: MListOf(...)}: a list literal assigned to this local is represented as a symbolic
         # mutable list from the start (needed when the list is later handed to a contract that modifies it)
         self.locals = locals or {}
